@@ -7,8 +7,8 @@ from urllib.parse import quote, unquote
 import coregen as cg
 
 PROP = 'C05'
-LEAN_TARGETS = ['MorphKgc.Props.C05']
-GEN_KEYS = ['escape']
+LEAN_TARGETS = ['MorphKgc.Props.C05', 'MorphKgc.Props.CoreFuncs']
+GEN_KEYS = ['escape', 'core']
 M = 'MorphKgc.Props.C05'
 THEOREMS = [{'name': f'Props.C05.{n}', 'module': M} for n in [
     'chainOK_template', 'chainOK_fnml', 'C05_escape_roundtrip', 'C05_escape_roundtrip_fnml', 'C05_sites_agree',
@@ -16,6 +16,8 @@ THEOREMS = [{'name': f'Props.C05.{n}', 'module': M} for n in [
     'C05_F1_reference_iri_not_encoded', 'C05_template_iri_encoded', 'C05_F2_bnode_label_raw',
     'C05_rules_lines_valid', 'C05_engine_lines_valid_partial', 'C05_lines_injective', 'C05_literal_is_cell',
     'C05_template_iri_decodes', 'C05_F1_line_not_parsed']]
+# the model functions these theorems are about are EQUAL to the functions translated from /repo's source (Gen/CoreFuncs.lean)
+THEOREMS += [{'name': f'Props.CoreFuncs.{n}', 'module': 'MorphKgc.Props.CoreFuncs'} for n in ['materialize_template_eq', 'refs_eq']]
 RULE = ('(I2) _materialize_template on one-row frames over term kind x term type x datatype x safe_percent_encoding x '
         'only_printable_chars with values drawn from every code-point class (controls, quotes, backslashes, line breaks, '
         'IRI-reserved, non-BMP); (pct) falcon encode_value / urllib quote vs Model.pctEncode (thorough: all 1,112,064 scalar '
